@@ -392,11 +392,15 @@ func (self *Runtime) InvokePipeline(src string, srcPath string, psid string,
 		pipestancePath, mroPaths,
 		mroVersion, envs, false, readOnly, context.Background())
 	if err != nil {
-		// If instantiation failed, delete the pipestance folder, unless it
-		// failed because another instance holds the pipestance: then the
-		// folder is that instance's, not ours.
-		if _, locked := err.(*PipestanceLockedError); !locked {
+		// If instantiation failed, clean up.  The contents of the folder
+		// are ours only if this call got as far as taking the lock (then a
+		// pipestance is returned along with the error).  Otherwise another
+		// instance may have started in the folder in the meantime: remove
+		// the folder only if it is still empty.
+		if pipestance != nil {
 			os.RemoveAll(pipestancePath)
+		} else {
+			os.Remove(pipestancePath)
 		}
 		return nil, err
 	}
